@@ -16,7 +16,6 @@ package internal
 
 import (
 	"iter"
-	"maps"
 	"net/http"
 	"net/textproto"
 	"strconv"
@@ -73,10 +72,12 @@ type RawCSVSeq string
 // Value returns an iterator over the raw comma-separated string and a boolean indicating
 // whether the result is valid.
 func (s RawCSVSeq) Value() (seq iter.Seq[string], valid bool) {
-	if len(s) == 0 {
-		return
+	// A list without any member ("", ",", " , ") is no list: all spellings of the empty
+	// list are treated alike.
+	for range TrimmedCSVSeq(string(s)) {
+		return TrimmedCSVSeq(string(s)), true
 	}
-	return TrimmedCSVSeq(string(s)), true
+	return
 }
 
 // directivesSeq2 returns an iterator over all key-value pairs in a string of
@@ -110,8 +111,19 @@ func directivesSeq2(s string) iter.Seq2[string, string] {
 
 // parseDirectives parses a string of cache directives and returns a map
 // where the keys are the directive names and the values are the arguments.
+//
+// When a directive occurs more than once the first occurrence is used (RFC 9111
+// §4.2.1) - with one exception: an argument-less no-cache is not narrowed by a
+// qualified one next to it, whatever their order.
 func parseDirectives(s string) map[string]string {
-	return maps.Collect(directivesSeq2(s))
+	d := make(map[string]string)
+	for key, value := range directivesSeq2(s) {
+		old, dup := d[key]
+		if !dup || (key == "no-cache" && old != "" && value == "") {
+			d[key] = value
+		}
+	}
+	return d
 }
 
 func hasToken(d map[string]string, token string) bool {
